@@ -206,9 +206,11 @@ def build(model, N, rng):
         sigma = float(rng.choice([1.0, 1.0, 0.8, 1.3]))
         l = float(sigma * rng.choice([1.0, 1.0, 0.8, 1.5, 0.6]))
         lp_min = 4.0 * l ** 3 / (4.0 * l ** 2 - sigma ** 2)
-        mode = str(rng.choice(['near', 'mid', 'mid', 'stiff', 'doc']))
+        mode = str(rng.choice(['near', 'at', 'mid', 'mid', 'stiff', 'doc']))
         if mode == 'near':
             lp = lp_min * (1 + float(rng.uniform(0, 0.0009)))
+        elif mode == 'at':
+            lp = lp_min * (1 + float(rng.choice([0.0, 1e-12, 1e-9, 1e-7, 1e-5])))      # the freely-jointed limit itself is a valid parameter
         elif mode == 'mid':
             lp = lp_min * float(rng.uniform(1.01, 3.0))
         elif mode == 'stiff':
